@@ -127,10 +127,38 @@ def body(chk, db, cfgname):
                         if nn["k"] == "call" and strip_targs(nn.get("cname") or "") == "std::stack::push" and hctx.key(nn["obj"]) == stack and \
                                 hctx.key(nn["args"][0], inline=False) == ("op", "[]", vec, v):
                             good += 1
-    if good == 2:
+    # verdict by evaluating the extracted body on small pools (the body only copies elements and counts): every task number
+    # and every worker is on its stack exactly once, and WorkerIndices maps each worker to its position in worker_pool (the
+    # slot of its completion request).  Any loop form gives the same result; the shape analysis above is the fall-back.
+    fill_verdict = None
+    try:
+        from pv.summ import Interp, Obj, Thrown, DMap
+        for tasks_, pool_ in (([], [4]), ([7], [4, 2]), ([7, 5, 9], [4, 2, 6]), ([7, 5, 9, 1], [3])):
+            this_ = Obj("MPIMaster", **{M + "Ntasks": len(tasks_), M + "Nprocs": len(pool_), M + "task_numbers": list(tasks_), M + "worker_pool": list(pool_),
+                                        M + "JobStack": [], M + "WorkerStack": [], M + "WorkerIndices": DMap(lambda: 0)})
+            Interp(db, {}).call_fn(h, [], this=this_)
+            js, ws, wi = this_.f[M + "JobStack"], this_.f[M + "WorkerStack"], this_.f[M + "WorkerIndices"]
+            if sorted(js) != sorted(tasks_):
+                fill_verdict = "with tasks %s the job stack becomes %s: not every task exactly once" % (tasks_, js)
+            elif sorted(ws) != sorted(pool_):
+                fill_verdict = "with the pool %s (and %d tasks) the stack of idle workers becomes %s: not every worker exactly once (a worker that is never idle never gets Finish / the all-idle test can never hold)" % (pool_, len(tasks_), ws)
+            elif any(wi.get(w_) != p_ for p_, w_ in enumerate(pool_)):
+                fill_verdict = "WorkerIndices does not map each worker to its position in worker_pool (%s for the pool %s): completion requests are stored in the wrong slot" % (dict(wi), pool_)
+            if fill_verdict:
+                break
+        if fill_verdict is None:
+            fill_verdict = "ok"
+    except (AnalysisBroken, Thrown) as e_:
+        fill_verdict = None
+        fill_err = str(e_)
+    if fill_verdict == "ok":
+        r1.ok(site, h.loc(), "every task number and every worker of the pool is pushed once; WorkerIndices[worker_pool[p]] = p (evaluated on 4 pools%s)" % ("; descending full-range loops" if good == 2 else ""), cfgname)
+    elif fill_verdict is not None:
+        r1.bad(site, h.loc(), "fill_stack_ does not push every task / worker exactly once: " + fill_verdict, cfgname)
+    elif good == 2:
         r1.ok(site, h.loc(), "every task number and every worker of the pool is pushed once (descending full-range loops)", cfgname)
     else:
-        r1.bad(site, h.loc(), "fill_stack_ does not push every task / worker exactly once", cfgname)
+        r1.unknown(site, h.loc(), "fill_stack_: loop form not recognised and the body could not be interpreted (%s)" % fill_err, cfgname)
 
     # ================================================================== R2
     r2 = chk.rule("C16-R2", "worker state machine: receive re-posted after every order, cancelled iff Finish; completion report resets the state; members initialised before the receive captures them", "F2 typestate", 5)
